@@ -276,6 +276,15 @@ def _file_is_main(e):
     return False
 
 
+def resolver_guarantees_start(F):
+    """does name_resolution::resolve only let a *variable defined in the main file* pass as `start`"""
+    import core
+    scratch = core.Report("_", "quick")
+    start_rules(F, scratch)
+    res = {o["key"]: o["ok"] for o in scratch.obs if o["rule"] == "START"}
+    return res.get("resolve|start-is-a-variable", False) and res.get("resolve|start-defined-in-main", False)
+
+
 def start_rules(F, rep):
     fres = F.fn(NR + "resolve")
     rep.analysed(fres)
@@ -347,7 +356,10 @@ def start_rules(F, rep):
                     if v.endswith("Option::Some"):
                         oe = [c for c in nodes(a["body"], "MethodCall") if c["m"] == "or_else"]
                         err_on_fail = bool(oe) and any(tc.is_err_value(x["body"]) for c in oe for x in c["args"] if x.get("k") == "Closure")
-    rep.ob("START", "solve|no-start=>Err", none_err, "solve() has an error arm for a missing start function", fsolve["sp"])
+    guaranteed = var_only and own_file
+    rep.ob("START", "solve|no-start=>Err", none_err or guaranteed,
+           "solve() has an error arm for a missing start function" if none_err else
+           "name resolution already guarantees a global `start` defined in the main file, so solve()'s lookup cannot fail", fsolve["sp"])
     rep.ob("START", "solve|wrong-type=>Err", err_on_fail, "a start function of another type is an error", fsolve["sp"])
     # the start variable is the first global named start
     fs = F.fn(TCM + "solve")
